@@ -373,6 +373,22 @@ def interval(F, t, depth=0):
     s = P.strip(t, calls=False)
     if s != t:
         return interval(F, s, depth + 1)
+    if t[0] == "field" and t[2] == 0 and t[1][0] == "field" and t[1][2] == 0 and t[1][1][0] == "variant" and t[1][1][2] == "Some":
+        # the position component of `for (i, x) in ARRAY.iter().enumerate()`: below the array's length
+        nx = t[1][1][1]
+        if nx[0] == "call" and nx[1].endswith("::next") and len(nx[2]) == 1:
+            from . import loops as L_
+            src_, chain_ = L_.iterator_chain(nx[2][0])
+            names_ = [c.rsplit("::", 1)[-1] for c in chain_ if c.rsplit("::", 1)[-1] != "into_iter"]
+            if names_ == ["iter", "enumerate"] or names_ == ["enumerate"]:
+                s0 = P.strip(src_, calls=False)
+                while s0[0] == "cast" and s0[1] == "PointerCoercion":
+                    s0 = P.strip(s0[2], calls=False)
+                if s0[0] == "named":
+                    v = F.const_value(s0[1])
+                    if v and "array" in v and len(v["array"]) > 0:
+                        return (0, len(v["array"]) - 1)
+        return None
     if t[0] == "field" and t[2] == 0 and t[1][0] == "variant" and t[1][2] == "Some":
         # the payload of `a.checked_sub(b)`: a - b where that is not negative
         c_ = P.strip(t[1][1], calls=False)
@@ -610,6 +626,16 @@ def _discharge(F, cg, site, pr, ctxinfo):
             # unwrap of a literal Some(..)
             if s[0] == "agg" and s[1].endswith("Option::Some"):
                 return "R-some-literal"
+    if site.kind == "index" and "RangeFrom<usize>" in site.info.get("index_ty", "") and site.info.get("container", "").startswith("["):
+        # ARRAY[start..] on a fixed-size array: in range when start <= N
+        m_ = re.match(r"^\[.*; (\d+)\]$", site.info.get("container", ""))
+        args_ = site.info.get("args") or []
+        if m_ and len(args_) == 2:
+            rng_ = P.strip(args_[1], calls=False)
+            if rng_[0] == "agg" and rng_[1].endswith("RangeFrom::RangeFrom") and len(rng_[2]) == 1:
+                iv = interval(F, P.strip(rng_[2][0]))
+                if iv is not None and 0 <= iv[0] and iv[1] <= int(m_.group(1)):
+                    return "R-interval"
     if site.kind == "index" and "RangeFrom<usize>" in site.info.get("index_ty", "") and site.info.get("container", "").startswith("std::vec::Vec<"):
         r = _range_from_after_index(fn, pr, site)
         if r:
